@@ -397,3 +397,77 @@ func (e *SeqEval) listElems(v ssa.Value, depth int) ([]ssa.Value, bool) {
 	}
 	return nil, false
 }
+
+// LenCase is one way an integer expression can evaluate: under the extra conditions Atoms its value is L.
+type LenCase struct {
+	Atoms []Atom
+	L     LinLen
+}
+
+// EvalLenCases is EvalLen with case analysis through helpers: a call of an int-valued function of the module that the rules do
+// not know by name is evaluated on each of its returning paths, the path's conditions (in the caller's terms) becoming the
+// conditions of the case.
+func (e *SeqEval) EvalLenCases(v ssa.Value) []LenCase {
+	v = e.resolve(v)
+	one := func(l LinLen) []LenCase { return []LenCase{{L: l}} }
+	switch x := v.(type) {
+	case *ssa.BinOp:
+		if x.Op == token.ADD || x.Op == token.SUB {
+			sign := int64(1)
+			if x.Op == token.SUB {
+				sign = -1
+			}
+			var out []LenCase
+			for _, a := range e.EvalLenCases(x.X) {
+				for _, b := range e.EvalLenCases(x.Y) {
+					out = append(out, LenCase{Atoms: append(append([]Atom(nil), a.Atoms...), b.Atoms...), L: a.L.add(b.L, sign)})
+				}
+			}
+			if len(out) <= 256 {
+				return out
+			}
+		}
+	case *ssa.Call:
+		cal := StaticCallee(&x.Call)
+		if cal == nil || cal.Pkg == nil || len(cal.Blocks) == 0 || KnownFuncs[cal.String()] || !strings.HasPrefix(cal.Pkg.Pkg.Path(), "github.com/b2broker/simplefix-go") || e.Depth > 6 {
+			break
+		}
+		if _, _, pure := pureExprOf(cal); pure {
+			break // rendered through by EvalLen's atoms
+		}
+		sub := map[ssa.Value]ssa.Value{}
+		env := map[ssa.Value]Seq{}
+		for i, prm := range cal.Params {
+			if i < len(x.Call.Args) {
+				sub[prm] = e.resolve(x.Call.Args[i])
+				if isByteish(prm.Type()) {
+					env[prm] = e.Eval(x.Call.Args[i])
+				}
+			}
+		}
+		paths, _ := EnumPaths(cal, 64)
+		var out []LenCase
+		okAll := true
+		for _, p := range paths {
+			if p.Return == nil {
+				continue
+			}
+			if len(p.ResVals) != 1 || p.Loop {
+				okAll = false
+				break
+			}
+			sub2 := &SeqEval{Path: p, Env: env, Depth: e.Depth + 1}
+			var atoms []Atom
+			for _, a := range p.Atoms {
+				atoms = append(atoms, NormAtomSubst(a.Val, a.Taken, sub))
+			}
+			for _, c := range sub2.EvalLenCases(p.ResVals[0]) {
+				out = append(out, LenCase{Atoms: append(append([]Atom(nil), atoms...), c.Atoms...), L: c.L})
+			}
+		}
+		if okAll && len(out) > 0 {
+			return out
+		}
+	}
+	return one(e.EvalLen(v))
+}
